@@ -147,44 +147,67 @@ func (sc *Scanner) scanIdent(ch int, buf *bytes.Buffer) error {
 	return nil
 }
 
-func (sc *Scanner) scanDecimal(ch int, buf *bytes.Buffer) error {
-	writeChar(buf, ch)
-	for isDecimal(sc.Peek()) {
-		writeChar(buf, sc.Next())
+// isNumeral reports whether s is a numeral of Lua 5.1: decimal digits with an optional fraction
+// (at least one digit in all) and an optional decimal exponent, or 0x/0X followed by one or more
+// hexadecimal digits.
+func isNumeral(s string) bool {
+	if len(s) > 2 && s[0] == '0' && (s[1] == 'x' || s[1] == 'X') {
+		for i := 2; i < len(s); i++ {
+			if !isDigit(int(s[i])) {
+				return false
+			}
+		}
+		return true
 	}
-	return nil
+	i, ndigits := 0, 0
+	for ; i < len(s) && isDecimal(int(s[i])); i++ {
+		ndigits++
+	}
+	if i < len(s) && s[i] == '.' {
+		for i++; i < len(s) && isDecimal(int(s[i])); i++ {
+			ndigits++
+		}
+	}
+	if ndigits == 0 {
+		return false
+	}
+	if i < len(s) && (s[i] == 'e' || s[i] == 'E') {
+		i++
+		if i < len(s) && (s[i] == '+' || s[i] == '-') {
+			i++
+		}
+		nexp := 0
+		for ; i < len(s) && isDecimal(int(s[i])); i++ {
+			nexp++
+		}
+		if nexp == 0 {
+			return false
+		}
+	}
+	return i == len(s)
 }
 
+// scanNumber reads a numeral the way Lua 5.1's read_numeral does: digits and dots, an optional
+// exponent mark with its sign, then every following letter, digit or underscore; the text is
+// then checked against the numeral grammar, so "0012" is twelve and "1e", "3x", "1..2", "0x"
+// are malformed numbers instead of being cut into pieces or evaluated as NaN.
 func (sc *Scanner) scanNumber(ch int, buf *bytes.Buffer) error {
-	if ch == '0' { // octal
-		if sc.Peek() == 'x' || sc.Peek() == 'X' {
-			writeChar(buf, ch)
-			writeChar(buf, sc.Next())
-			hasvalue := false
-			for isDigit(sc.Peek()) {
-				writeChar(buf, sc.Next())
-				hasvalue = true
-			}
-			if !hasvalue {
-				return sc.Error(buf.String(), "illegal hexadecimal number")
-			}
-			return nil
-		} else if sc.Peek() != '.' && isDecimal(sc.Peek()) {
-			ch = sc.Next()
-		}
-	}
-	sc.scanDecimal(ch, buf)
-	if sc.Peek() == '.' {
-		sc.scanDecimal(sc.Next(), buf)
-	}
-	if ch = sc.Peek(); ch == 'e' || ch == 'E' {
+	writeChar(buf, ch)
+	for c := sc.Peek(); isDecimal(c) || c == '.'; c = sc.Peek() {
 		writeChar(buf, sc.Next())
-		if ch = sc.Peek(); ch == '-' || ch == '+' {
+	}
+	if c := sc.Peek(); c == 'e' || c == 'E' {
+		writeChar(buf, sc.Next())
+		if c = sc.Peek(); c == '-' || c == '+' {
 			writeChar(buf, sc.Next())
 		}
-		sc.scanDecimal(sc.Next(), buf)
 	}
-
+	for isIdent(sc.Peek(), 1) {
+		writeChar(buf, sc.Next())
+	}
+	if !isNumeral(buf.String()) {
+		return sc.Error(buf.String(), "malformed number")
+	}
 	return nil
 }
 
